@@ -225,3 +225,221 @@ def ensure_dbos_importable() -> None:
     """``llama_agents/dbos/__init__.py`` imports DBOSRuntime (dbos, sqlalchemy at module scope): bypass the package
     __init__ exactly as vlib.boot does for llama_agents.server, so journal/lifecycle.py and idle_release.py load."""
     vlib.boot._bypass("llama_agents.dbos", DBOS_DIR)
+
+
+# --------------------------------------------------------------------------------------------- in-process server stack
+class InprocStack:
+    """The in-process server stack exactly as ``WorkflowServer.__init__`` assembles it (server.py needs starlette):
+    ServerRuntimeDecorator( IdleReleaseDecorator( PersistenceDecorator( BasicRuntime ) ) ) over one MemoryWorkflowStore,
+    fronted by the real ``_WorkflowService``.  The BasicRuntime is the observing subclass below (no behaviour change).
+    """
+
+    def __init__(self, idle_timeout: Any, store: Any = None) -> None:
+        from llama_agents.server._runtime.idle_release_runtime import IdleReleaseDecorator
+        from llama_agents.server._runtime.persistence_runtime import PersistenceDecorator
+        from llama_agents.server._runtime.server_runtime import ServerRuntimeDecorator
+        from llama_agents.server._service import _WorkflowService
+        from llama_agents.server._store.memory_workflow_store import MemoryWorkflowStore
+
+        self.store = store if store is not None else MemoryWorkflowStore()
+        self.basic = make_observing_basic_runtime()
+        self.persistence = PersistenceDecorator(self.basic, store=self.store)
+        self.idle = IdleReleaseDecorator(self.persistence, store=self.store, idle_timeout=idle_timeout)
+        self.runtime = ServerRuntimeDecorator(self.idle, store=self.store, persistence_backoff=[])
+        self.service = _WorkflowService(runtime=self.runtime, store=self.store)
+
+    def add_workflow(self, name: str, workflow: Any) -> None:  # == WorkflowServer.add_workflow
+        workflow._switch_workflow_name(name)
+        workflow._switch_runtime(self.runtime)
+
+
+def make_observing_basic_runtime() -> Any:
+    """A BasicRuntime that additionally RECORDS (a) every control-loop task it creates per run id and (b) a snapshot of
+    the run's mailbox at the moment ``abort()`` is called on it.  Pure observation: every call goes to super()."""
+    from workflows.plugins.basic import BasicRuntime, ExternalAsyncioAdapter
+
+    from workflows.plugins.basic import InternalAsyncioAdapter
+    from workflows.runtime.control_loop import rebuild_state_from_ticks
+    from workflows.runtime.types.named_task import PendingWorker, WorkerTask
+
+    class ObsInternalAdapter(InternalAsyncioAdapter):
+        async def wait_for_next_task(self, running, pending, timeout=None):  # type: ignore[no-untyped-def]
+            # what the runner is about to wait on: worker tasks in flight, and whether its timer heap is non-empty
+            self._queues.__dict__["obs_wait"] = {
+                "workers": sum(1 for x in list(running) + list(pending) if isinstance(x, (WorkerTask, PendingWorker))),
+                "timeout": timeout,
+            }
+            return await super().wait_for_next_task(running, pending, timeout)
+
+    class ObsExternalAdapter(ExternalAsyncioAdapter):
+        def abort(self) -> None:
+            q = self._queues
+            w = q.__dict__.get("obs_wait") or {"workers": 0, "timeout": None}
+            self._outer.aborts.append(
+                {"run_id": self.run_id, "mailbox": q.receive_queue.qsize(), "n_ticks": len(q.ticks),
+                 "was_running": not q.complete.done(), "at": asyncio.get_running_loop().time(),
+                 "workers_running": w["workers"], "wakeup_pending": w["timeout"] is not None,
+                 "state": rebuild_state_from_ticks(q.init_state, list(q.ticks))}
+            )
+            super().abort()
+
+    class ObsBasicRuntime(BasicRuntime):
+        def __init__(self) -> None:
+            super().__init__()
+            self.loops: Dict[str, List[Any]] = {}
+            self.aborts: List[Dict[str, Any]] = []
+            self.overlap = False  # a control loop was started while an older one of the same run was not done
+
+        def run_workflow(self, run_id, workflow, init_state, start_event=None, serialized_state=None, serializer=None):  # type: ignore[no-untyped-def]
+            ad = super().run_workflow(run_id, workflow, init_state, start_event=start_event,
+                                      serialized_state=serialized_state, serializer=serializer)
+            olds = self.loops.setdefault(run_id, [])
+            for t in olds:
+                if not t.done():
+                    self.overlap = True
+            olds.append(self._queues[run_id].complete)
+            return ad
+
+        def get_external_adapter(self, run_id):  # type: ignore[no-untyped-def]
+            if run_id not in self._queues:
+                raise RuntimeError(f"No active workflow with run_id '{run_id}'. ")
+            return ObsExternalAdapter(self, self._queues[run_id])
+
+        def get_internal_adapter(self, workflow):  # type: ignore[no-untyped-def]
+            inner = super().get_internal_adapter(workflow)
+            return ObsInternalAdapter(inner._queues)
+
+        def live_loops(self, run_id: str) -> int:
+            return sum(1 for t in self.loops.get(run_id, []) if not t.done())
+
+    return ObsBasicRuntime()
+
+
+# --------------------------------------------------------------------------------------------- scenario runner
+def concrete(i: Any, lo: int, hi: int) -> int:
+    """Fork on a small symbolic int (the solver enumerates lo..hi) and return the concrete value."""
+    for k in range(lo, hi):
+        if i == k:
+            return k
+    return hi
+
+
+def inproc_clock_modules() -> Dict[str, List[Any]]:
+    """Every module on the in-process path that reads a clock (found by grep of the current tree; CrossHair raises
+    NotDeterministic if one is missed, so the list is self-checking)."""
+    import llama_agents.server._runtime.idle_release_runtime as irr
+    import llama_agents.server._runtime.server_runtime as srt
+    import llama_agents.server._service as svc
+    import llama_agents.server._store.abstract_workflow_store as absm
+    import llama_agents.server._store.memory_workflow_store as memm
+    import workflows.context.internal_context as ictx
+    import workflows.plugins.basic as basic_mod
+    import workflows.runtime.control_loop as cl
+    import workflows.runtime.types.step_function as sf
+
+    return {"time": [basic_mod, cl, sf, ictx], "datetime": [irr, srt, absm, memm, svc]}
+
+
+class _FixedIds:
+    """Deterministic stand-in for the module attribute ``nanoid``/``uuid`` (ids are environment)."""
+
+    def __init__(self, prefix: str) -> None:
+        self.prefix = prefix
+        self.n = 0
+
+    def __call__(self, *a: Any, **k: Any) -> str:
+        self.n += 1
+        return f"{self.prefix}{self.n}"
+
+    def uuid4(self) -> str:
+        return self()
+
+
+def run_inproc(idle_timeout: Any, sends: List[Any], make_workflow: Any, make_event: Any, settle: int = 3,
+               horizon: int = 12) -> Dict[str, Any]:
+    """One whole scenario on a fresh MiniLoop / store / runtime stack.
+
+    * the workflow (built by ``make_workflow()``) is registered as "w" and started through the REAL
+      ``_WorkflowService.start_workflow`` (handler "h1", run id "run1");
+    * ``sends`` = [(at, payload), ...]: at virtual time ``at`` the event ``make_event(payload)`` is sent through the REAL
+      ``_WorkflowService.send_event`` (one sender task per entry, started in list order);
+    * after the last send the handler record is polled once per virtual second until it leaves "running"
+      (at most ``horizon`` seconds), then ``settle`` more seconds pass.
+    Returns an observation record (plain data) for the obligations' predicates."""
+    import llama_agents.server._service as svc
+    import workflows.runtime.types.step_function as sf
+    from llama_agents.server._store.abstract_workflow_store import HandlerQuery
+    from vlib.miniloop import MiniLoop
+
+    loop = MiniLoop()
+    obs: Dict[str, Any] = {"pre_send": [], "post_send": [], "errors": []}
+
+    async def main() -> None:
+        st = InprocStack(idle_timeout)
+        wf = make_workflow()
+        st.add_workflow("w", wf)
+        await st.service.start()
+        await st.service.start_workflow(wf, "h1", None)
+
+        async def handler_rec() -> Any:
+            return (await st.store.query(HandlerQuery(handler_id_in=["h1"])))[0]
+
+        async def sender(i: int, at: Any, payload: Any) -> None:
+            await asyncio.sleep(at)
+            h = await handler_rec()
+            obs["pre_send"].append({"i": i, "at": loop.time(), "live": st.basic.live_loops("run1"),
+                                    "idle_since": h.idle_since is not None, "status": h.status,
+                                    "aborts": len(st.basic.aborts), "loops": len(st.basic.loops.get("run1", []))})
+            try:
+                await st.service.send_event("h1", make_event(payload))
+            except Exception as e:  # noqa: BLE001 - recorded, judged by the obligation
+                obs["errors"].append(f"send {i}: {type(e).__name__}: {e}")
+
+        tasks = [asyncio.ensure_future(sender(i, at, p)) for i, (at, p) in enumerate(sends)]
+        for t in tasks:
+            await t
+        h = await handler_rec()
+        waited = 0
+        while h.status == "running" and waited < horizon:
+            await asyncio.sleep(1)
+            waited += 1
+            h = await handler_rec()
+        if settle:
+            await asyncio.sleep(settle)
+            h = await handler_rec()
+        ticks = await st.store.get_ticks("run1")
+        obs["status"] = h.status
+        obs["idle_since"] = h.idle_since is not None
+        obs["result"] = h.result.result if h.result is not None else None
+        obs["error"] = h.error
+        obs["ticks"] = [t.tick_data for t in ticks]
+        obs["aborts"] = list(st.basic.aborts)
+        obs["overlap"] = st.basic.overlap
+        obs["loops"] = len(st.basic.loops.get("run1", []))
+        obs["live_at_end"] = st.basic.live_loops("run1")
+        obs["end"] = loop.time()
+        obs["workflow"] = wf
+        obs["loop_exceptions"] = [str(c.get("exception") or c.get("message")) for c in loop._exc]
+        await st.service.stop()
+
+    clocks = inproc_clock_modules()
+    saved_nanoid, saved_uuid = svc.nanoid, sf.uuid
+    svc.nanoid = _FixedIds("run")
+    sf.uuid = _FixedIds("span")
+    try:
+        with VirtualClocks(loop, time_mods=clocks["time"], datetime_mods=clocks["datetime"]):
+            loop.run_until_complete(main())
+    finally:
+        svc.nanoid, sf.uuid = saved_nanoid, saved_uuid
+    return obs
+
+
+def abort_state_is_quiescent(ab: Dict[str, Any]) -> bool:
+    """Judge one abort() snapshot: nothing queued (mailbox, step queues), running (in_progress / worker tasks) or
+    scheduled (the runner's last wait carried a wake-up timeout <=> its timer heap was non-empty)."""
+    if ab["mailbox"] != 0 or ab["workers_running"] != 0 or ab["wakeup_pending"]:
+        return False
+    for ws in ab["state"].workers.values():
+        if ws.queue or ws.in_progress:
+            return False
+    return True
